@@ -63,6 +63,17 @@ dbus_bool_t bus_service_owner_in_queue (BusService *service, DBusConnection *con
   PRE (service != NULL && __CPROVER_same_object (service, o_svc) && connection == PEER, "bus_service_owner_in_queue: service from the lookup, connection is the peer");
   return F.reg_peer_in_queue[(char *) service - o_svc];
 }
+/* the primary owner of a name is one of its owners; whether the peer is the primary or only queued is arbitrary (ghost).
+ * Not called by the unchanged code of the rule checks (they ask bus_service_owner_in_queue: "receive_sender ... owned by
+ * the sender, including queued owners"); present so that a change that asks for the primary owner only is refuted, not
+ * left undecided. */
+static _Bool g_peer_is_primary[SPEC_NAMES];
+static char o_other_conn;
+DBusConnection *bus_service_get_primary_owners_connection (BusService *service)
+{
+  PRE (service != NULL && __CPROVER_same_object (service, o_svc), "bus_service_get_primary_owners_connection: service from the lookup");
+  return g_peer_is_primary[(char *) service - o_svc] ? PEER : (DBusConnection *) &o_other_conn;
+}
 /* contract (doc comment in connection.h/.c + man page): TRUE iff the connection is primary or queued owner of a
  * name in the namespace of the prefix; enforced on the real function by unit C06.owner_by_prefix */
 dbus_bool_t bus_connection_is_queued_owner_by_prefix (DBusConnection *connection, const char *name_prefix)
@@ -79,7 +90,8 @@ static void havoc_facts (void)
   F.reply_serial = nondet_uint (); F.n_fds = nondet_uint (); F.requested_reply = nondet_bool ();
   F.peer_is_connection = nondet_bool (); F.proposed_is_addressed = nondet_bool ();
   for (int k = 0; k < SPEC_NAMES; k++)
-    { F.reg_name[k] = pool (k); F.reg_exists[k] = nondet_bool (); F.reg_peer_in_queue[k] = nondet_bool (); }
+    { F.reg_name[k] = pool (k); F.reg_exists[k] = nondet_bool (); F.reg_peer_in_queue[k] = nondet_bool ();
+      g_peer_is_primary[k] = nondet_bool (); __CPROVER_assume (!g_peer_is_primary[k] || F.reg_peer_in_queue[k]); }
 }
 /* preconditions on the facts: what a message that passed validation satisfies (D-Bus specification, header
  * fields table: REPLY_SERIAL is required in METHOD_RETURN and ERROR; C01/C15 units) and ghost-map consistency */
